@@ -49,6 +49,14 @@ def build(case, inp):
     return d
 
 
+def prepare_rt(case, rt):
+    # integer and temporal values are accumulated exactly: any store of a 64-bit integer into a float array on the way is a side
+    # obligation (|v| <= 2^53), decided by the solver like every other obligation (the solver's own arithmetic is exact, so a detour
+    # through float64 is invisible in the values)
+    dt = real_np.dtype(case["dtype"])
+    rt.exact_ints = dt.kind in "iumM" and case["op"] in ("cumsum", "cummin", "cummax")
+
+
 def _gb_state(E, case, d):
     from .gbcore import make_gb
     if case.get("lengths"):
